@@ -49,6 +49,9 @@ func isValidLookupFileName(fileName string) bool {
 	return filepath.Base(fileName) == fileName
 }
 
+// suffix of the temporary file an upload is written to before it is renamed into place
+const uploadTmpSuffix = ".uploading"
+
 func UploadLookupFile(ctx *fasthttp.RequestCtx) {
 	fileName := string(ctx.FormValue("name"))
 	if fileName == "" {
@@ -112,18 +115,18 @@ func UploadLookupFile(ctx *fasthttp.RequestCtx) {
 		return
 	}
 
-	var dst *os.File
-	if overwrite {
-		dst, err = os.OpenFile(dstPath, os.O_WRONLY|os.O_CREATE|os.O_TRUNC, 0644)
-	} else {
-		dst, err = os.Create(dstPath)
-	}
+	// Write through a temporary file and rename it into place, so that a crash
+	// in the middle of an upload never leaves an empty or partial lookup file
+	// (or destroys the one being overwritten).
+	tmpPath := dstPath + uploadTmpSuffix
+	dst, err := os.OpenFile(tmpPath, os.O_WRONLY|os.O_CREATE|os.O_TRUNC, 0644)
 	if err != nil {
 		log.Errorf("UploadLookupFile: Error creating/opening the destination file: %v", err)
 		ctx.Error("Error creating/opening the destination file", fasthttp.StatusInternalServerError)
 		return
 	}
 	defer dst.Close()
+	defer os.Remove(tmpPath)
 
 	file, err := fileHeader.Open()
 	if err != nil {
@@ -134,6 +137,16 @@ func UploadLookupFile(ctx *fasthttp.RequestCtx) {
 	defer file.Close()
 
 	if _, err := io.Copy(dst, file); err != nil {
+		log.Errorf("UploadLookupFile: Error saving the file: %v", err)
+		ctx.Error("Error saving the file", fasthttp.StatusInternalServerError)
+		return
+	}
+	if err := dst.Sync(); err != nil {
+		log.Errorf("UploadLookupFile: Error saving the file: %v", err)
+		ctx.Error("Error saving the file", fasthttp.StatusInternalServerError)
+		return
+	}
+	if err := os.Rename(tmpPath, dstPath); err != nil {
 		log.Errorf("UploadLookupFile: Error saving the file: %v", err)
 		ctx.Error("Error saving the file", fasthttp.StatusInternalServerError)
 		return
@@ -162,7 +175,8 @@ func GetAllLookupFiles(ctx *fasthttp.RequestCtx) {
 
 	fileNames := []string{}
 	for _, file := range files {
-		if file.Type().IsRegular() {
+		// an upload interrupted by a crash may leave its temporary file behind
+		if file.Type().IsRegular() && !strings.HasSuffix(file.Name(), uploadTmpSuffix) {
 			fileNames = append(fileNames, file.Name())
 		}
 	}
